@@ -86,8 +86,13 @@ def canonicalize_metadata(
     for value in values:
         if isinstance(value, dict | list | tuple):
             value = canonicalize_metadata(value)
-        elif isinstance(value, int | float | str | np.ndarray) or value is None:
-            value = str(value)
+        elif isinstance(value, np.ndarray):
+            # str(ndarray) keeps 8 significant digits and summarises long arrays:
+            # different arrays must not canonicalize identically.
+            value = f"ndarray({value.tolist()!r}, dtype={value.dtype!s}, shape={value.shape!r})"
+        elif isinstance(value, int | float | str) or value is None:
+            # repr keeps values of different type apart (3 vs "3", None vs "None")
+            value = repr(value)
         elif hasattr(value, "ufl_signature"):
             value = value.ufl_signature
         else:
